@@ -229,20 +229,20 @@ func fnClientList(ctx *cmdContext, args map[string]any) (output respValue, err e
 
 	var list strings.Builder
 
+	if !ctx.multi {
+		// own the data store before walking the client table, the same order as inside
+		// EXEC (which already owns it), or the two deadlock each other
+		ctx.dsc.acquireExclusive()
+		defer ctx.dsc.releaseExclusive()
+	}
+
 	processAllClients(func(id int64, cs *clientState) {
 		included := true
 		if len(ids) > 0 {
 			_, included = ids[cs.id]
 		}
 		if included {
-			var info string
-			if ctx.multi {
-				// inside EXEC the data store is already owned by this command
-				info = ctx.infoUnlocked(cs)
-			} else {
-				info = ctx.info(cs)
-			}
-			list.WriteString(info)
+			list.WriteString(ctx.infoUnlocked(cs))
 		}
 	})
 
